@@ -17,6 +17,7 @@ import (
 	"path/filepath"
 	"runtime/debug"
 	"sort"
+	"strconv"
 	"strings"
 	"sync"
 	"testing"
@@ -40,6 +41,11 @@ func vfThorough() bool { return *vfFlagTier == "thorough" }
 type vfFailure struct {
 	Key string // stable identification of the failing site (known-findings key)
 	Msg string
+	// AltSub/AltCase, when set, replace the case in the replay file: an
+	// enumerating sub-check reports the single failing input as a case of
+	// the corresponding single-input sub-check.
+	AltSub  string
+	AltCase any
 }
 
 func (f *vfFailure) Error() string { return f.Key + ": " + f.Msg }
@@ -66,6 +72,11 @@ func (c *vfCtx) Notef(format string, args ...any) {
 // Failf aborts the case with a violation.
 func (c *vfCtx) Failf(key, format string, args ...any) {
 	panic(&vfFailure{Key: key, Msg: fmt.Sprintf(format, args...)})
+}
+
+// FailAlt is Failf with a replacement (smaller) replay case.
+func (c *vfCtx) FailAlt(altSub string, altCase any, key, format string, args ...any) {
+	panic(&vfFailure{Key: key, Msg: fmt.Sprintf(format, args...), AltSub: altSub, AltCase: altCase})
 }
 
 // vfInconclusive aborts the case without a verdict (exit 2 in the driver).
@@ -223,6 +234,11 @@ func vfJournal(prop, sub string, data []byte) {
 func vfWriteFail(prop, sub string, f *vfFailure, data []byte, ctx *vfCtx) {
 	if *vfFlagOut == "" {
 		return
+	}
+	if f.AltCase != nil {
+		if b, err := json.Marshal(f.AltCase); err == nil {
+			data, sub = b, f.AltSub
+		}
 	}
 	rf := map[string]any{"property": prop, "key": f.Key, "msg": f.Msg, "sub": sub, "case": json.RawMessage(data)}
 	if ctx != nil && len(ctx.notes) > 0 {
@@ -425,6 +441,31 @@ func vfMine(i int) bool {
 }
 
 // ---- small helpers ----------------------------------------------------------
+
+// vfScaleChecks divides -rapid.checks for an expensive sub-check; call the
+// returned function to restore it.
+func vfScaleChecks(div int) func() {
+	f := flag.Lookup("rapid.checks")
+	if f == nil {
+		return func() {}
+	}
+	old := f.Value.String()
+	n, _ := strconv.Atoi(old)
+	n = n / div
+	if n < 1 {
+		n = 1
+	}
+	flag.Set("rapid.checks", strconv.Itoa(n))
+	return func() { flag.Set("rapid.checks", old) }
+}
+
+func vfMustJSON(v any) []byte {
+	b, err := json.Marshal(v)
+	if err != nil {
+		panic(err)
+	}
+	return b
+}
 
 func vfDeadline(d time.Duration) <-chan time.Time { return time.After(d) }
 
